@@ -406,13 +406,42 @@ def r1_npk(R, m, fn, cfg, app_stmt, ubiname):
         elif isinstance(nv, ast.Name) and isinstance(base, ast.Name):
             # form 2: npk = m; UBI = W  with  m = self.score(W, tol)  and W not modified in place between that score and here
             mdefs = assigns_to(fn, nv.id)
-            okm = len(mdefs) == 1 and isinstance(mdefs[0].value, ast.Call) and nows(src(mdefs[0].value.func)) == "self.score" \
-                and mdefs[0].value.args and nows(src(mdefs[0].value.args[0])) == base.id
+
+            def is_score_of(v_, w_):
+                return isinstance(v_, ast.Call) and nows(src(v_.func)) == "self.score" and bool(v_.args) and nows(src(v_.args[0])) == w_
+
+            def block_of(st_):
+                par_ = getattr(st_, "_parent", None)
+                for fld_ in ("body", "orelse", "finalbody"):
+                    blk_ = getattr(par_, fld_, None)
+                    if isinstance(blk_, list) and st_ in blk_:
+                        return blk_
+                return []
+            okm = len(mdefs) == 1 and is_score_of(mdefs[0].value, base.id)
+            if not okm and len(mdefs) >= 2:
+                # a running best kept as a pair (W, m): every definition of m is the score of W, or a copy of another pair
+                # (m := m2 next to W := W2 with m2 the score of W2), and every definition of W has its m next to it
+                wdefs = assigns_to(fn, base.id)
+                pair_ok = True
+                for md in mdefs:
+                    if is_score_of(md.value, base.id):
+                        continue
+                    if isinstance(md.value, ast.Name):
+                        m2 = assigns_to(fn, md.value.id)
+                        wsib = [x for x in block_of(md) if isinstance(x, ast.Assign) and nows(src(x.targets[0])) == base.id and isinstance(x.value, ast.Name)]
+                        if len(m2) == 1 and len(wsib) == 1 and is_score_of(m2[0].value, wsib[0].value.id):
+                            continue
+                    pair_ok = False
+                for wd in wdefs:
+                    blk_ = block_of(wd)
+                    if not any(isinstance(x, ast.Assign) and nows(src(x.targets[0])) == nv.id for x in blk_):
+                        pair_ok = False
+                okm = pair_ok and bool(wdefs)
             R.check(okm, "C08.R1", REL, d.lineno, "indexer.scorethem",
                     "%s := %s with npk := %s, %s := %s" % (ubiname, src(uv), src(nv), nv.id, [src(x.value)[:60] for x in mdefs]),
                     "the replacement count is not the score of the replacement matrix")
             if okm:
-                stale = [mu for mu in inplace_mutations(R, fn, base.id) if mu.lineno > mdefs[0].lineno and mu.lineno < d.lineno]
+                stale = [mu for mu in inplace_mutations(R, fn, base.id) if mu.lineno > min(x.lineno for x in mdefs) and mu.lineno < d.lineno]
                 R.check(not stale, "C08.R1", REL, d.lineno, "indexer.scorethem", "%s unchanged between its scoring and the hand-over" % base.id,
                         "the replacement matrix is modified in place after it was scored: %s" % [src(x)[:50] for x in stale])
         else:
@@ -551,7 +580,7 @@ def r2(R, m):
     masks = [c for c in ast.walk(ff) if isinstance(c, ast.Call) and (dotted(c.func) or "").endswith("compress")]
     nmask = 0
     for c in masks:
-        t = nows(src(c.args[0]))
+        t = nows(pyfacts.resolved_src(ff, c.args[0], 3, keep=("self",)))      # through local names (unassigned = self.ga == -1)
         if "self.ra" not in t:
             continue
         nmask += 1
